@@ -386,7 +386,9 @@ def digest_matrix(ctx, level, t):
         entries = by_group[gi]
         b = entries[0][2]
         if b[0] != "ok":
-            raise core.Infra(f"C14 base run failed ({base}): {b[1]}")
+            # a seeded run of a supported configuration that raises: nothing to compare, and not a harness problem
+            ctx.oracle_fail(f"seeded-run.raised.{tag}", f"the base run of this configuration raised: {str(b[1])[-400:]}", dict(base=base))
+            continue
         b = b[1]
         ctx.traces += 1
         for role, cfg, r in entries[1:]:
@@ -476,7 +478,8 @@ def digest_matrix(ctx, level, t):
         b = by_group[gi][0][2][1]
         case = dict(base=base, role="fresh-interpreter", PYTHONHASHSEED=hs, base_digest=b)
         if r[0] != "ok":
-            raise core.Infra(f"C14 fresh-interpreter run failed: {r[1]}")
+            ctx.oracle_fail(f"seeded-run.raised.fresh-interpreter.{tag}", f"the run in a fresh interpreter raised: {str(r[1])[-400:]}", case)
+            continue
         df = differs(b, r[1])
         if df:
             ctx.oracle_fail(f"seeded-run.same-config.fresh-interpreter.{tag}",
